@@ -55,3 +55,121 @@ def replay(desc, ENV, build, run_binary):
         hs = [l.split()[1] for l in out.splitlines() if len(l.split()) == 2 and l.split()[0] == str(desc['case'])]
         obs[mode] = (p.returncode, hs)
     return (obs['asan'] != obs['asan-call'] or obs['asan'][0] != 0, json.dumps(obs))
+
+
+def run_stream(ENV, producer_cmd, harness_path, harness_args, nshards=16):
+    """Runs nshards pipelines `producer(shard) | harness`; returns (result dicts, failure dicts)."""
+    procs = []
+    for s in range(nshards):
+        prod = subprocess.Popen([c.replace('{shard}', str(s)).replace('{nshards}', str(nshards)) for c in producer_cmd], stdout=subprocess.PIPE, env=ENV, cwd=ROOT)
+        cons = subprocess.Popen([harness_path] + harness_args, stdin=prod.stdout, stdout=subprocess.PIPE, stderr=subprocess.PIPE, env=ENV, cwd=ROOT)
+        prod.stdout.close()
+        procs.append((prod, cons))
+    results, failures = [], []
+    for s, (prod, cons) in enumerate(procs):
+        out, err = cons.communicate(); prod.wait()
+        got_result = False
+        for line in out.decode('utf-8', 'replace').splitlines():
+            if line.startswith('RESULT '):
+                try: results.append(json.loads(line[7:])); got_result = True
+                except Exception as e: failures.append({'kind': 'harness_error', 'why': 'bad RESULT line', 'raw': line[:300]})
+            elif line.startswith('FAIL '):
+                try: failures.append(json.loads(line[5:]))
+                except Exception: failures.append({'kind': 'unparsable_failure', 'raw': line[:1000]})
+        if cons.returncode not in (0, 1) or not got_result or prod.returncode != 0:
+            failures.append({'kind': 'harness_error', 'rc': cons.returncode, 'producer_rc': prod.returncode, 'stderr': err.decode('utf-8', 'replace')[-2000:], 'shard': s})
+    return results, failures
+
+
+def merge_stream_results(name, results):
+    """Sums counters over workers (keys starting with max_ are maxed), unions class hashes."""
+    agg = {'sub': name, 'evaluations': 0, 'exhaustive': True, 'wall_s': 0.0, 'counters': {}, 'samples': []}
+    classes = set(); supp = 0
+    for r in results:
+        agg['evaluations'] += r.get('evaluations', 0); agg['exhaustive'] = agg['exhaustive'] and bool(r.get('exhaustive'))
+        agg['wall_s'] = max(agg['wall_s'], r.get('wall_s', 0)); supp += r.get('failing_observations_same_kind_suppressed', 0)
+        for k, v in r.get('counters', {}).items():
+            agg['counters'][k] = max(agg['counters'].get(k, 0), v) if k.startswith('max_') else agg['counters'].get(k, 0) + v
+        classes.update(r.get('class_hashes', []))
+    agg['classes'] = len(classes); agg['failing_observations_same_kind_suppressed'] = supp
+    return agg
+
+
+def _verif_hash():
+    import hashlib
+    h = hashlib.sha1()
+    for d in ('gen', 'src/common', 'src/ref', 'src/checks', 'bin'):
+        p = os.path.join(ROOT, d)
+        for f in sorted(os.listdir(p)):
+            fp = os.path.join(p, f)
+            if os.path.isfile(fp) and not f.endswith('.pyc'): h.update(f.encode()); h.update(open(fp, 'rb').read())
+    return h.hexdigest()[:12]
+
+
+def _tree_hash(repo):
+    import hashlib
+    h = hashlib.sha1()
+    for d in ('src', 'src/inc', 'include/graphite2'):
+        p = os.path.join(repo, d)
+        if not os.path.isdir(p): continue
+        for f in sorted(os.listdir(p)):
+            fp = os.path.join(p, f)
+            if os.path.isfile(fp): h.update(f.encode()); h.update(open(fp, 'rb').read())
+    return h.hexdigest()[:16]
+
+
+def stream_families(families, prop, harness='c02_stream', extra_args=()):
+    """Step factory for the shared C02-C05 program-enumeration runs.  Results of one (tree, harness, tier, family) run are
+    cached under build/work/cache so that the four properties that share the run do not repeat it; `prop` selects which
+    failing observations belong to the property being checked (crashes and harness-level problems belong to C02)."""
+    def step(tier, ENV, build, run_binary):
+        work = ENV['VERIF_WORK']; cache = os.path.join(work, 'cache'); os.makedirs(cache, exist_ok=True)
+        key = '%s-%s' % (_tree_hash(ENV['VERIF_REPO']), _verif_hash())
+        results, failures = [], []
+        for fam in families:
+            cf = os.path.join(cache, '%s-%s-%s-%s.json' % (harness, fam, tier, key))
+            if os.path.exists(cf):
+                d = json.load(open(cf)); d['agg']['cached'] = True
+            else:
+                res, fails = run_stream(ENV, ['python3', os.path.join(ROOT, 'gen', 'progenum.py'), fam, tier, '{shard}', '{nshards}'],
+                                        os.path.join(os.path.dirname(work), 'asan', harness), ['--tier', tier, '--sub', fam] + list(extra_args))
+                d = {'agg': merge_stream_results(fam, res), 'fails': fails}
+                for old in os.listdir(cache):
+                    if old.startswith('%s-%s-%s-' % (harness, fam, tier)): os.unlink(os.path.join(cache, old))
+                json.dump(d, open(cf, 'w'))
+            agg = dict(d['agg']); c = agg.get('counters', {})
+            if prop in ('C03', 'C04', 'C05'):
+                agg['evaluations'] = c.get('segments', 0) - c.get('null_segments', 0)      # segments whose structure was checked
+                agg['fonts'] = c.get('fonts', 0)
+            agg['samples'] = [{'family': fam, 'note': 'see gen/progenum.py for the atom alphabet', 'example_program': ['next', 'att-1', 'delete', 'ret-1']}]
+            results.append(agg)
+            for f in d['fails']:
+                fp = f.get('prop')
+                if f.get('kind') in ('crash', 'harness_error', 'unparsable_failure', 'harness_died_outside_case') or fp is None: fp = 'C02'
+                if fp == 'C16' and prop == 'C02': fp = 'C02'          # leaked table borrows on these fonts also break C02's "no leak" clause
+                if fp != prop: continue
+                f = dict(f); f['_mode'] = 'asan'; f['_bin'] = harness; f['_replay_py'] = 'checks_py'; f['_differential'] = 'stream'; f['_args'] = ['--tier', tier] + list(extra_args)
+                failures.append(f)
+        return results, failures, (1 if failures else 0), ''
+    return step
+
+
+_interp_replay = replay
+
+
+def replay(desc, ENV, build, run_binary):
+    if desc.get('_differential') != 'stream':
+        return _interp_replay(desc, ENV, build, run_binary)
+    # stream record replay: feed the recorded bytes to the harness in-process mode; failing again = a FAIL line of the same property or a crash
+    BUILD = os.path.dirname(ENV['VERIF_WORK'])
+    build(['build/asan/%s' % desc['_bin']])
+    if 'blob' not in desc: return (True, 'no blob recorded')
+    p = subprocess.run([os.path.join(BUILD, 'asan', desc['_bin'])] + list(desc.get('_args', [])) + ['--replay-stdin'], input=bytes.fromhex(desc['blob']),
+                       stdout=subprocess.PIPE, stderr=subprocess.PIPE, env=ENV, cwd=ROOT)
+    out = p.stdout.decode('utf-8', 'replace'); again = p.returncode != 0
+    for l in out.splitlines():
+        if l.startswith('FAIL '):
+            try:
+                if json.loads(l[5:]).get('prop', 'C02') == desc.get('prop', 'C02'): again = True
+            except Exception: again = True
+    return (again, out[-1500:].replace(desc['blob'], '<blob>') + p.stderr.decode('utf-8', 'replace')[-1500:])
